@@ -36,6 +36,9 @@ func fail(format string, a ...interface{}) { panic(unsupported{fmt.Sprintf(forma
 // ---------- types ----------
 
 type translator struct {
+	ifaces  map[string]*types.Named // lean name -> named interface type
+	iorder  []string
+	cur     *fnInfo
 	gdefs   map[*types.Package]string
 	gcalls  map[*types.Package]map[*ssa.Function]bool
 	globals map[*ssa.Global]*node
@@ -66,6 +69,7 @@ type fnInfo struct {
 	params  string
 	calls   map[*ssa.Function]bool
 	gdeps   map[*types.Package]bool
+	ifaces  map[string]bool
 }
 
 func pkgShort(p *types.Package) string {
@@ -95,6 +99,20 @@ func (t *translator) leanType(ty types.Type) string {
 				t.sorder = append(t.sorder, name)
 			}
 			return name
+		}
+		if _, ok := u.Underlying().(*types.Interface); ok {
+			if u.Obj().Pkg() == nil {
+				fail("interface type %s", u)
+			}
+			name := pkgShort(u.Obj().Pkg()) + "_" + u.Obj().Name()
+			if _, seen := t.ifaces[name]; !seen {
+				t.ifaces[name] = u
+				t.iorder = append(t.iorder, name)
+			}
+			if t.cur != nil {
+				t.cur.ifaces[name] = true
+			}
+			return "R_" + name
 		}
 		return t.leanType(u.Underlying())
 	case *types.Alias:
@@ -246,6 +264,7 @@ type ptrv struct {
 }
 
 type sym struct {
+	iface bool
 	expr  string
 	ptr   *ptrv
 	comps []sym // tuple
@@ -726,6 +745,12 @@ func (c *ctx) instr(s *state, in ssa.Instruction, d int) {
 			if cl == nil {
 				fail("load from consumed memory")
 			}
+			if _, isIface := x.Type().Underlying().(*types.Interface); isIface {
+				// an interface value is handled as a reference to the place it was read from (its abstract state lives there)
+				c.t.leanType(x.Type())
+				s.env[x] = sym{ptr: &ptrv{cell: cl, path: p.ptr.path}, typ: x.Type(), iface: true}
+				return
+			}
 			bind(x, c.load(&ptrv{cell: cl, path: p.ptr.path}))
 		case token.SUB:
 			bind(x, "(-"+c.val(s, x.X).expr+")")
@@ -804,8 +829,8 @@ func (c *ctx) instr(s *state, in ssa.Instruction, d int) {
 			fail("store into consumed memory")
 		}
 		v := c.val(s, x.Val)
-		if v.ptr != nil || v.fn != nil {
-			fail("storing a pointer or function value")
+		if v.ptr != nil || v.fn != nil || v.iface {
+			fail("storing a pointer, function or interface value")
 		}
 		c.store(pp, v.expr)
 	case *ssa.Field:
@@ -875,7 +900,8 @@ func (c *ctx) instr(s *state, in ssa.Instruction, d int) {
 func (c *ctx) call(s *state, x *ssa.Call, d int) {
 	com := x.Common()
 	if com.IsInvoke() {
-		fail("interface method call %s", com.Method.Name())
+		c.invoke(s, x, d)
+		return
 	}
 	if b, ok := com.Value.(*ssa.Builtin); ok {
 		switch b.Name() {
@@ -964,6 +990,12 @@ func (c *ctx) call(s *state, x *ssa.Call, d int) {
 		}
 		args = append(args, av.expr)
 	}
+	var iargs []string
+	for _, in := range sortedKeys(ci.ifaces) {
+		c.info.ifaces[in] = true
+		iargs = append(iargs, "I_"+in)
+	}
+	args = append(iargs, args...)
 	nres := callee.Signature.Results().Len()
 	k := nres + len(ci.outputs)
 	e := "(" + ci.name + " " + strings.Join(args, " ") + ")"
@@ -996,6 +1028,117 @@ func (c *ctx) call(s *state, x *ssa.Call, d int) {
 		}
 		c.store(q, proj(name, nres+j, k))
 	}
+}
+
+// invoke: a method call on an interface value.  The object behind the interface is external to the translated code:
+// it is an abstract state of type `R_<iface>` with one function per method (`<iface>_ops`), threaded through the
+// place the interface value was read from.
+func (c *ctx) invoke(s *state, x *ssa.Call, d int) {
+	com := x.Common()
+	recv := c.val(s, com.Value)
+	if !recv.iface || recv.ptr == nil {
+		fail("interface method call %s on a value of unknown origin", com.Method.Name())
+	}
+	named, ok := com.Value.Type().(*types.Named)
+	if !ok {
+		fail("method call on an unnamed interface type")
+	}
+	lt := c.t.leanType(named) // registers the interface
+	iname := strings.TrimPrefix(lt, "R_")
+	if !c.t.methodOK(named, com.Method.Name()) {
+		fail("interface method %s has an untranslatable signature", com.Method.Name())
+	}
+	origin := &ptrv{cell: s.cells[recv.ptr.cell.id], path: recv.ptr.path}
+	if origin.cell == nil {
+		fail("interface value read from consumed memory")
+	}
+	cur := c.load(origin)
+	var args []string
+	for _, a := range com.Args {
+		av := c.val(s, a)
+		if av.ptr != nil || av.fn != nil || av.comps != nil || av.iface {
+			fail("passing a non-first-order value to an interface method")
+		}
+		args = append(args, av.expr)
+	}
+	c.tmp++
+	name := fmt.Sprintf("%sr%d", c.prefix, c.tmp)
+	fmt.Fprintf(&c.out, "%slet %s := (I_%s.%s %s %s)\n", ind(d), name, iname, leanIdent(com.Method.Name()), cur, strings.Join(args, " "))
+	sig := com.Method.Type().(*types.Signature)
+	nres := sig.Results().Len()
+	if nres == 0 {
+		c.store(origin, name)
+		return
+	}
+	c.store(origin, name+".2")
+	var comps []sym
+	for j := 0; j < nres; j++ {
+		comps = append(comps, sym{expr: proj(name+".1", j, nres), typ: sig.Results().At(j).Type()})
+	}
+	if nres == 1 {
+		s.env[x] = comps[0]
+	} else {
+		s.env[x] = sym{comps: comps, typ: x.Type()}
+	}
+}
+
+// methodOK: can the method's signature be expressed (first-order parameters and results only)?
+func (t *translator) methodOK(named *types.Named, method string) (ok bool) {
+	defer func() {
+		if r := recover(); r != nil {
+			if _, isU := r.(unsupported); !isU {
+				panic(r)
+			}
+			ok = false
+		}
+	}()
+	it := named.Underlying().(*types.Interface)
+	for i := 0; i < it.NumMethods(); i++ {
+		m := it.Method(i)
+		if m.Name() != method {
+			continue
+		}
+		sig := m.Type().(*types.Signature)
+		if sig.Variadic() {
+			return false
+		}
+		saved := t.cur
+		t.cur = nil
+		defer func() { t.cur = saved }()
+		for j := 0; j < sig.Params().Len(); j++ {
+			if !firstOrder(sig.Params().At(j).Type()) {
+				return false
+			}
+			t.leanType(sig.Params().At(j).Type())
+		}
+		for j := 0; j < sig.Results().Len(); j++ {
+			if !firstOrder(sig.Results().At(j).Type()) {
+				return false
+			}
+			t.leanType(sig.Results().At(j).Type())
+		}
+		return true
+	}
+	return false
+}
+
+func firstOrder(ty types.Type) bool {
+	switch u := ty.Underlying().(type) {
+	case *types.Basic:
+		return u.Info()&types.IsString == 0 && u.Kind() != types.UnsafePointer
+	case *types.Struct:
+		for i := 0; i < u.NumFields(); i++ {
+			if !firstOrder(u.Field(i).Type()) {
+				return false
+			}
+		}
+		return true
+	case *types.Array:
+		return firstOrder(u.Elem())
+	case *types.Slice:
+		return firstOrder(u.Elem())
+	}
+	return false
 }
 
 // block executes a basic block (and, recursively, its successors) and emits a Lean term.
@@ -1079,6 +1222,15 @@ func (c *ctx) block(s *state, b *ssa.BasicBlock, from *ssa.BasicBlock, onPath ma
 	fail("block without terminator")
 }
 
+func sortedKeys(m map[string]bool) []string {
+	var r []string
+	for k := range m {
+		r = append(r, k)
+	}
+	sort.Strings(r)
+	return r
+}
+
 func sortedIO(m map[string]ioPath) []ioPath {
 	var keys []string
 	for k := range m {
@@ -1113,7 +1265,7 @@ func (t *translator) runInit(pk *ssa.Package) {
 	if init == nil || len(init.Blocks) < 2 {
 		return
 	}
-	c := &ctx{t: t, info: &fnInfo{calls: map[*ssa.Function]bool{}, gdeps: map[*types.Package]bool{}}, fn: init, inputs: map[string]ioPath{}, outputs: map[string]ioPath{}, pcell: map[int]int{}, inInit: true,
+	c := &ctx{t: t, info: &fnInfo{calls: map[*ssa.Function]bool{}, gdeps: map[*types.Package]bool{}, ifaces: map[string]bool{}}, fn: init, inputs: map[string]ioPath{}, outputs: map[string]ioPath{}, pcell: map[int]int{}, inInit: true,
 		prefix: "init_" + pkgShort(pk.Pkg) + "_"}
 	s := &state{env: map[ssa.Value]sym{}, cells: map[int]*cell{}}
 	gcell := map[*ssa.Global]*cell{}
@@ -1265,7 +1417,7 @@ func (t *translator) translate(fn *ssa.Function) (fi *fnInfo) {
 		}
 		return old
 	}
-	fi = &fnInfo{fn: fn, name: t.fnName(fn), busy: true, calls: map[*ssa.Function]bool{}, gdeps: map[*types.Package]bool{}}
+	fi = &fnInfo{fn: fn, name: t.fnName(fn), busy: true, calls: map[*ssa.Function]bool{}, gdeps: map[*types.Package]bool{}, ifaces: map[string]bool{}}
 	t.funcs[fn] = fi
 	defer func() {
 		fi.busy = false
@@ -1286,7 +1438,11 @@ func (t *translator) translate(fn *ssa.Function) (fi *fnInfo) {
 	}
 	var fixedOut []ioPath
 	var c *ctx
+	saved := t.cur
+	t.cur = fi
+	defer func() { t.cur = saved }()
 	for pass := 0; pass < 4; pass++ {
+		fi.ifaces = map[string]bool{}
 		c = &ctx{t: t, info: fi, fn: fn, inputs: map[string]ioPath{}, outputs: map[string]ioPath{}, pcell: map[int]int{}, fixedOut: fixedOut}
 		fi.calls = map[*ssa.Function]bool{}
 		s := &state{env: map[ssa.Value]sym{}, cells: map[int]*cell{}}
@@ -1330,6 +1486,9 @@ func (t *translator) translate(fn *ssa.Function) (fi *fnInfo) {
 	fi.outputs = fixedOut
 	// signature
 	var ps []string
+	for _, in := range sortedKeys(fi.ifaces) {
+		ps = append(ps, fmt.Sprintf("{R_%s : Type} (I_%s : %s_ops R_%s)", in, in, in, in))
+	}
 	for i, p := range fn.Params {
 		if _, ok := p.Type().Underlying().(*types.Pointer); ok {
 			for _, io := range fi.inputs {
@@ -1376,7 +1535,7 @@ func main() {
 	}
 	prog, _ := ssautil.AllPackages(pkgs, ssa.BuilderMode(0))
 	prog.Build()
-	t := &translator{gdefs: map[*types.Package]string{}, gcalls: map[*types.Package]map[*ssa.Function]bool{}, globals: map[*ssa.Global]*node{}, gdone: map[*ssa.Package]bool{}, prog: prog, structs: map[string]*types.Struct{}, funcs: map[*ssa.Function]*fnInfo{}}
+	t := &translator{ifaces: map[string]*types.Named{}, gdefs: map[*types.Package]string{}, gcalls: map[*types.Package]map[*ssa.Function]bool{}, globals: map[*ssa.Global]*node{}, gdone: map[*ssa.Package]bool{}, prog: prog, structs: map[string]*types.Struct{}, funcs: map[*ssa.Function]*fnInfo{}}
 
 	// library functions of the module (no commands, no tests), in a deterministic order
 	var targets []*ssa.Function
@@ -1450,8 +1609,54 @@ func main() {
 		fmt.Fprintf(&tb, "deriving DecidableEq, Repr\n")
 		fmt.Fprintf(&tb, "def %s.zero : %s := ⟨%s⟩\ninstance : Inhabited %s := ⟨%s.zero⟩\n\n", name, name, strings.Join(zs, ", "), name, name)
 	}
-	tb.WriteString("end Ivg.Gen.Code\n")
-	write("Types.lean", tb.String())
+	// interfaces: the object behind an interface value is an abstract state `R` with one function per method
+	// (methods whose signature mentions interfaces, functions, strings … are left out: code calling them is unsupported)
+	var ib strings.Builder
+	for _, name := range t.iorder {
+		named := t.ifaces[name]
+		it := named.Underlying().(*types.Interface)
+		var lines []string
+		for i := 0; i < it.NumMethods(); i++ {
+			m := it.Method(i)
+			if !t.methodOK(named, m.Name()) {
+				continue
+			}
+			sig := m.Type().(*types.Signature)
+			parts := []string{"R"}
+			for j := 0; j < sig.Params().Len(); j++ {
+				parts = append(parts, t.leanType(sig.Params().At(j).Type()))
+			}
+			res := "R"
+			if sig.Results().Len() > 0 {
+				var rs []string
+				for j := 0; j < sig.Results().Len(); j++ {
+					rs = append(rs, t.leanType(sig.Results().At(j).Type()))
+				}
+				res = "(" + strings.Join(rs, " × ") + ") × R"
+			}
+			lines = append(lines, fmt.Sprintf("  %s : %s → %s", leanIdent(m.Name()), strings.Join(parts, " → "), res))
+		}
+		fmt.Fprintf(&ib, "/-- Go interface %s: the object behind a value of this type, as far as the translated code can tell -/\nstructure %s_ops (R : Type) where\n%s\n\n", named.String(), name, strings.Join(lines, "\n"))
+	}
+	// (structs discovered while printing the method signatures)
+	var tb2 strings.Builder
+	tb2.WriteString("import Ivg.Gen.GoPrelude\n/-! GENERATED by /verif/translator from the Go source of /repo — do not edit. Struct types passed by value; interfaces as abstract objects. -/\nnamespace Ivg.Gen.Code\nopen Ivg.Num Ivg.Gen\n\n")
+	for _, name := range t.sorder {
+		st := t.structs[name]
+		fmt.Fprintf(&tb2, "structure %s where\n", name)
+		var zs []string
+		for i := 0; i < st.NumFields(); i++ {
+			f := st.Field(i)
+			fmt.Fprintf(&tb2, "  %s : %s\n", leanIdent(f.Name()), t.leanType(f.Type()))
+			zs = append(zs, t.zero(f.Type()))
+		}
+		fmt.Fprintf(&tb2, "deriving DecidableEq, Repr\n")
+		fmt.Fprintf(&tb2, "def %s.zero : %s := ⟨%s⟩\ninstance : Inhabited %s := ⟨%s.zero⟩\n\n", name, name, strings.Join(zs, ", "), name, name)
+	}
+	tb2.WriteString(ib.String())
+	tb2.WriteString("end Ivg.Gen.Code\n")
+	_ = tb
+	write("Types.lean", tb2.String())
 
 	var pkgList []*types.Package
 	for p := range byPkg {
